@@ -227,7 +227,7 @@ def _chunk_task(args):
 # A bare unary 'not' applies to the operand that FOLLOWS it wherever operands stand side by side: argument lists, operand
 # lists of prefix operators, cond clauses, array / struct literals, statement slots.  Each element: (what, fully
 # parenthesised spelling, bare spelling, result type, value for a=3 b=4 u=true w=false).
-JUXTA_PRE = ("struct TB { f: bool, g: int }\nfn f2(a: int, b: bool) -> int { if b { return a } else { return (- 0 a) } }\nshadow f2 { assert true }\n"
+JUXTA_PRE = ("fn fb(v: bool) -> bool { return (not v) }\nshadow fb { assert true }\nstruct TB { f: bool, g: int }\nfn f2(a: int, b: bool) -> int { if b { return a } else { return (- 0 a) } }\nshadow f2 { assert true }\n"
              "fn g2(b: bool, a: int) -> int { if b { return a } else { return (- 0 a) } }\nshadow g2 { assert true }\n"
              "fn f3(a: int, b: bool, c: bool) -> int { if (and b c) { return a } else { return 0 } }\nshadow f3 { assert true }\n")
 JUXTA = [
@@ -254,13 +254,17 @@ JUXTA = [
 JUXTA_OPERANDS = [("u", "w"), ("w", "u"), ("(== a 3)", "(< b a)"), ("true", "false")]
 
 
-def juxta_programs():
+JUXTA_OPERANDS_THOROUGH = JUXTA_OPERANDS + [("(fb w)", "(fb u)"), ("(and u w)", "(or u w)"), ("(not w)", "(not u)"), ("(a < b)", "(b < a)"), ("(== (+ a 1) 4)", "(!= a 3)")]
+
+
+def juxta_programs(tier="quick"):
     """-> (items, prefix program text, bare program text); items = [(fn name, what, expected text)]"""
-    vals = {"u": True, "w": False, "(== a 3)": True, "(< b a)": False, "true": True, "false": False}
+    vals = {"u": True, "w": False, "(== a 3)": True, "(< b a)": False, "true": True, "false": False, "(fb w)": True, "(fb u)": False, "(and u w)": False,
+            "(or u w)": True, "(not w)": True, "(not u)": False, "(a < b)": True, "(b < a)": False, "(== (+ a 1) 4)": True, "(!= a 3)": False}
     items = []
     texts = {"p": [JUXTA_PRE], "b": [JUXTA_PRE]}
     for k, (what, pfx, bare, t, f) in enumerate(JUXTA):
-        for j, (U, W) in enumerate(JUXTA_OPERANDS):
+        for j, (U, W) in enumerate(JUXTA_OPERANDS_THOROUGH if tier == "thorough" else JUXTA_OPERANDS):
             name = "j%d_%d" % (k, j)
             for tag, body in (("p", pfx), ("b", bare)):
                 texts[tag].append("fn %s(a: int, b: int, u: bool, w: bool) -> %s {\n    %s\n}\nshadow %s { assert true }\n" % (name, t, body.replace("@U", U).replace("@W", W), name))
@@ -270,8 +274,8 @@ def juxta_programs():
     return items, "".join(texts["p"]) + main, "".join(texts["b"]) + main
 
 
-def juxta_family(rep, tree, work, optable):
-    items, ptxt, btxt = juxta_programs()
+def juxta_family(rep, tree, work, optable, tier="quick"):
+    items, ptxt, btxt = juxta_programs(tier)
     paths = {}
     diag = {}
     for tag, txt in (("p", ptxt), ("b", btxt)):
@@ -345,7 +349,7 @@ def run(tier):
     jobs.append((tree.root, tree.exe("nano_virt"), work, len(jobs), longfile, base_long))
     compared = 0
     valued = 0
-    rep.coverage["juxtaposition_spellings"] = juxta_family(rep, tree, work, optable)
+    rep.coverage["juxtaposition_spellings"] = juxta_family(rep, tree, work, optable, tier)
     progp = nr.Program()
     progp.add_struct("TN", [("y", I), ("z", B)])
     progp.add_struct("TP", [("x", I), ("ok", B), ("n", "TN")])
